@@ -135,8 +135,9 @@ def doSort(results, orderBy):
         else:
             # Rely on stable sort results, since this is simpler
             # than trying to munge everything into a single sort key
-            doSort(results, orderBy[0])
+            # (so the least significant keys are sorted first)
             doSort(results, orderBy[1:])
+            doSort(results, orderBy[0])
             return
     if isinstance(orderBy, sqlbuilder.DESC) \
        and isinstance(orderBy.expr, sqlbuilder.SQLObjectField):
